@@ -542,7 +542,7 @@ const capCases = true
 // lockProbeCases: on the unchanged tree Database.Commit returns with db.lock.RLock still held when the batch write of the
 // preimage loop fails (finding proposed in /verif/proposed/C10-commit-error-leaks-read-lock.md, monitor class
 // commit-error-leaks-read-lock).  The `lockprobe` op and its case are ready; switch on once recorded or repaired.
-const lockProbeCases = false
+const lockProbeCases = true
 
 func genLarge(g *hx.Gen) {
 	T := dbm.IdealBatchSize // 100 KiB: Database.commit / Cap flush the write batch when it holds at least this much
